@@ -60,15 +60,17 @@ theorem C06_normalize_idem (s n : Str) (h : normalizeSubpath s = some n) :
 theorem C06_normalize_id (s n : Str) (h : normalizeSubpath s = some n) : n = s :=
   (normalizeSubpath_some s n h).1
 
-/-- **C06_subpath_split_roundtrip.** Registry-style printing `pkg//sub[?query]` splits back into
+/-- **C06_subpath_split_roundtrip_partial.** Registry-style printing `pkg//sub[?query]` splits back into
 package (with the query re-attached) and sub-path, provided that
 
 * neither part contains `?`,
 * `pkg` contains no `//` and does not end in `/`,
 * the printed string contains no `://`.
 
-Each side condition is necessary (`C06_cex_split_*` below). -/
-theorem C06_subpath_split_roundtrip (pkg sub qs : Str)
+Each side condition is necessary (`C06_cex_split_*` below): the plain statement "`pkg` without
+`//`, `?`, `://`" is false for packages ending in `/` or `:` and for sub-paths containing `://`,
+hence `_partial`.  Take `qs = []` for an address without query string. -/
+theorem C06_subpath_split_roundtrip_partial (pkg sub qs : Str)
     (hq : '?' ∉ pkg) (hs : '?' ∉ sub) (hqs : qs = [] ∨ ∃ t, qs = '?' :: t)
     (hss : contains (pkg ++ ['/']) ['/', '/'] = false)
     (hsch : contains (pkg ++ '/' :: '/' :: sub) [':', '/', '/'] = false) :
@@ -122,7 +124,7 @@ theorem C06_subpath_split_none_url (sch rest qs : Str)
   simp only [Option.isSome_eq_false_iff, Option.isNone_iff_eq_none] at hss hsch
   rw [splitSubPath_eq _ qs hpre hqs, splitPre_none_url sch rest hsch hss]
 
-/-- the side conditions of `C06_subpath_split_roundtrip` are needed: a package ending in `/` -/
+/-- the side conditions of `C06_subpath_split_roundtrip_partial` are needed: a package ending in `/` -/
 theorem C06_cex_split_trailing_slash :
     splitSubPath ("a/".toList ++ '/' :: '/' :: "b".toList) ≠ ("a/".toList, "b".toList) := by decide
 /-- … a package ending in `:` (the separator completes a `://`) -/
